@@ -79,7 +79,7 @@ theorem marshal_is_layout {C : Codecs} {T : String → Prop} (hC : LawfulCodecs 
     (env : Env) (s : MState) (hrun : runM C c env = .ok s) (hfit : intsFit s.env c.marshal = true) :
     s.P = layoutBytes C s.env (m.filter (·.blk == .P)) ∧ s.D = layoutBytes C s.env (m.filter (·.blk == .D)) ∧
       s.head = [] := by
-  obtain ⟨hP, hD, hH, _⟩ := runMStmts_layout hC c.isAndX c.marshal m { env := env } s hl hst
+  obtain ⟨hP, hD, hH, _⟩ := runMStmts_layout hC c.isAndX c.marshal m { env := prologueEnv c.isAndX env } s hl hst
     (fun b f t h => hT t (mem_subTypes h)) hrun hfit
   exact ⟨by simpa using hP, by simpa using hD, hH⟩
 
@@ -101,7 +101,7 @@ theorem unmarshal_reads_layout {C : Codecs} {T : String → Prop} (hC : LawfulCo
         ∀ f ∈ u.map Slot.field, d.get f = env'.get f) := by
   have hinv : Inv C env' {} (layoutBytes C env' (u.filter (·.blk == .P))) (layoutBytes C env' (u.filter (·.blk == .D))) 0 u :=
     ⟨fun b _ => (by cases b <;> exact Or.inr rfl), fun b hb => (by cases hb), fun _ => rfl⟩
-  obtain ⟨d, hd, hag⟩ := runU_go_layout hC env' plen _ _ c.unmarshal u {} []
+  obtain ⟨d, hd, _, hag⟩ := runU_go_layout hC env' plen _ _ c.unmarshal u {} []
     { P := layoutBytes C env' (u.filter (·.blk == .P)), D := layoutBytes C env' (u.filter (·.blk == .D)),
       Pext := Pext, Dext := Dext, wordCount := wc, env := env0 } 0 hl hok hrel hfit hlast hinv (fun f hf => by cases hf)
   refine ⟨d, hd, fun hne f hf => hag ?_ f (Or.inr hf)⟩
@@ -117,14 +117,15 @@ theorem unmarshal_reads_layout {C : Codecs} {T : String → Prop} (hC : LawfulCo
     kernel-decidable predicate `Mirror`, every codec table satisfying `LawfulCodecs` on the nested
     types the command uses, every internally consistent field assignment `env`, and every initial
     state `env0` of the receiving structure: `Marshal` succeeds, `Unmarshal` of the bytes succeeds, and
-    every declared field comes back with the value `Marshal` left in it (`SetBufferFormat`, nested
-    `Marshal` normalise the sender's fields; `env'` is the sender after the call).
+    every declared field — and, for an AndX command, the AndX block (`Cmd.roundTripFields`) — comes back
+    with the value `Marshal` left in it (`SetBufferFormat`, nested `Marshal` normalise the sender's fields,
+    the prologue gives a command without an AndX block the default one; `env'` is the sender after the call).
     Hypotheses on the presence/kind of fields are not needed: `consistent` already implies that
     `Marshal` ran, and `Unmarshal` assigns every declared field. -/
 theorem mirror_roundtrip {C : Codecs} {T : String → Prop} (hC : LawfulCodecs C T) (c : Cmd)
     (hm : Mirror c = true) (hT : ∀ t ∈ c.subTypes, T t) (env0 env : Env) (hc : consistent C c env = true) :
     ∃ bs env' d, encodeCmd C c env = .ok bs ∧ envAfterMarshal C c env = .ok env' ∧
-      decodeCmd C c env0 bs = .ok d ∧ ∀ f ∈ c.fields.map (·.1), d.get f = env'.get f :=
+      decodeCmd C c env0 bs = .ok d ∧ ∀ f ∈ c.roundTripFields, d.get f = env'.get f :=
   mirror_roundtrip_core hC c hm hT env0 env hc
 
 /-- **The standard codecs** (the C06 models behind `Manticore.SmbCodecs.std`) **satisfy the codec laws**
@@ -143,13 +144,13 @@ theorem mirror_types_lawful :
   decide +kernel
 
 /-- **C04 for the regenerated commands.**  Each of the 90 `Mirror` command structures of this tree
-    round-trips every declared field, for all internally consistent field values and all initial
+    round-trips every declared field and its AndX block, for all internally consistent field values and all initial
     states of the receiver, with the C06 models as nested codecs. -/
 theorem smb_roundtrip (c : Cmd) (hmem : c ∈ commands) (hm : Mirror c = true) (env0 env : Env)
     (hc : consistent Manticore.SmbCodecs.std c env = true) :
     ∃ bs env' d, encodeCmd Manticore.SmbCodecs.std c env = .ok bs ∧
       envAfterMarshal Manticore.SmbCodecs.std c env = .ok env' ∧
-      decodeCmd Manticore.SmbCodecs.std c env0 bs = .ok d ∧ ∀ f ∈ c.fields.map (·.1), d.get f = env'.get f := by
+      decodeCmd Manticore.SmbCodecs.std c env0 bs = .ok d ∧ ∀ f ∈ c.roundTripFields, d.get f = env'.get f := by
   refine mirror_roundtrip std_lawful c hm ?_ env0 env hc
   intro t ht
   have h := List.all_eq_true.mp mirror_types_lawful c hmem
@@ -223,12 +224,43 @@ example : consistent Manticore.SmbCodecs.std cmd_CloseRequest closeEnv = true :=
   have htup : tupOk Manticore.SmbCodecs.std "FILETIME" ([1, 2], []) = true := by decide +kernel
   unfold consistent
   rw [hrun]
-  simp [intsFit, relationsHold, cmd_CloseRequest, closeEnv, Env.get, htup, wordCountOf, andxWords]
+  simp [intsFit, relationsHold, cmd_CloseRequest, closeEnv, Env.get, htup, wordCountOf, andxWords, andxOk]
 example : encodeCmd Manticore.SmbCodecs.std cmd_CloseRequest closeEnv =
     .ok [5, 0x34, 0x12, 1, 0, 0, 0, 2, 0, 0, 0, 0, 0] := by decide +kernel
 example : Reencodable cmd_CloseRequest = true := by decide
 example : slotRange cmd_CloseRequest "FID" = some (1, 3) := by decide
 example : encodeCmd Manticore.SmbCodecs.std cmd_CloseRequest (closeEnv.set "FID" (.n 0xFFFF)) =
     .ok [5, 0xFF, 0xFF, 1, 0, 0, 0, 2, 0, 0, 0, 0, 0] := by decide +kernel
+
+/-- an AndX command with an AndX block set: `ReadAndxRequest{FID: 0x1234, Offset: 1, …}` chained to a
+    CLOSE (0x04) at offset 0x0102 — `Mirror` holds, the values are consistent, the AndX words go out at
+    the head of the parameter block and come back with the six declared fields -/
+def readAndxEnv : Env :=
+  [("FID", .n 0x1234), ("Offset", .n 1), ("MaxCountOfBytesToReturn", .n 2), ("MinCountOfBytesToReturn", .n 3),
+   ("Timeout", .n 4), ("Remaining", .n 5), (andxField, .ns [4, 0, 0x0102])]
+
+def readAndxWire : Bytes :=
+  [0x0a, 0x04, 0x00, 0x01, 0x02, 0x34, 0x12, 1, 0, 0, 0, 2, 0, 3, 0, 4, 0, 0, 0, 5, 0, 0, 0]
+
+example : Mirror cmd_ReadAndxRequest = true := by decide
+example : cmd_ReadAndxRequest.roundTripFields =
+    ["FID", "Offset", "MaxCountOfBytesToReturn", "MinCountOfBytesToReturn", "Timeout", "Remaining", "AndX"] := by decide
+example : consistent Manticore.SmbCodecs.std cmd_ReadAndxRequest readAndxEnv = true := by
+  have hrun : runM Manticore.SmbCodecs.std cmd_ReadAndxRequest readAndxEnv =
+      .ok { P := [0x34, 0x12, 1, 0, 0, 0, 2, 0, 3, 0, 4, 0, 0, 0, 5, 0], D := [], head := [], env := readAndxEnv } := by rfl
+  have hax : andxOk true readAndxEnv = true := by decide
+  unfold consistent
+  rw [hrun]
+  simp [intsFit, relationsHold, cmd_ReadAndxRequest, readAndxEnv, Env.get, wordCountOf, andxWords]
+  exact hax
+example : encodeCmd Manticore.SmbCodecs.std cmd_ReadAndxRequest readAndxEnv = .ok readAndxWire := by decide +kernel
+example : (match decodeCmd Manticore.SmbCodecs.std cmd_ReadAndxRequest [] readAndxWire with
+    | .ok d => cmd_ReadAndxRequest.roundTripFields.map d.get == cmd_ReadAndxRequest.roundTripFields.map readAndxEnv.get
+    | _ => false) = true := by decide +kernel
+/-- fewer than four parameter bytes: the AndX block cannot be read, `Unmarshal` returns an error -/
+example : decodeCmd Manticore.SmbCodecs.std cmd_ReadAndxRequest [] [0x01, 0x04, 0x00, 0, 0] = .err := by decide +kernel
+/-- without an AndX block set the prologue's default goes out: `ff 00 00 00` -/
+example : encodeCmd Manticore.SmbCodecs.std cmd_LogoffAndxRequest [] = .ok [0x02, 0xFF, 0, 0, 0, 0, 0] := by
+  decide +kernel
 
 end Manticore.C04
